@@ -30,8 +30,11 @@ def prepare(kind, name, patch=None):
     shutil.rmtree(d, ignore_errors=True)
     os.makedirs(d)
     patch = patch or f"{VERIF}/{kind}/{name}/patch.diff"
-    rc, out = sh(f"git -C /repo archive HEAD msmart reference | tar -x -C {d} && cd {d} && git apply --whitespace=nowarn {patch}")
+    rc, out = sh(f"git -C /repo archive {BASE[0]} msmart reference | tar -x -C {d} && cd {d} && git apply --whitespace=nowarn {patch}")
     return rc == 0, out
+
+
+BASE = ["HEAD"]       # --base <rev>: evaluate external patches against the /repo revision they were written for
 
 
 def external(root, kind):
@@ -54,11 +57,24 @@ def external(root, kind):
     return jobs, bad
 
 
+BASELINE = {}          # property -> set of finding lines on the plain base tree (only with --base)
+
+
+def findings(out):
+    return {l.strip()[:200] for l in out.splitlines() if (" -- " in l and l.startswith("  C")) or l.startswith("ANALYSIS-ERROR")}
+
+
 def one(job):
     kind, name, p = job
     root = "/repo" if kind == "clean" else f"{TMP}/{kind}/{name}"
     rc, out = sh(f"cd {VERIF} && ./check {p} --root {root} --no-write")
     msg = [l.strip()[:300] for l in out.splitlines() if (" -- " in l and l.startswith("  C")) or l.startswith("ANALYSIS-ERROR")]
+    if BASELINE and kind == "neutral" and rc != 0:
+        new = findings(out) - BASELINE.get(p, set())
+        if not new:
+            rc = 0          # nothing beyond what the base revision itself reports (defects fixed later in /repo)
+        else:
+            msg = sorted(new)
     return kind, name, p, rc, (msg[0] if msg else out[-300:].strip())
 
 
@@ -67,6 +83,15 @@ def main(argv):
     only = {a for a in argv if a not in ("clean", "seeded", "neutral") and not a.startswith("-")}
     jobs, bad = [], []
     try:
+        if "--base" in argv:
+            BASE[0] = argv[argv.index("--base") + 1]
+            only.discard(BASE[0])
+            d = os.path.join(TMP, "base")
+            os.makedirs(d, exist_ok=True)
+            sh(f"git -C /repo archive {BASE[0]} msmart reference | tar -x -C {d}")
+            for p in ALL:
+                _rc, out = sh(f"cd {VERIF} && ./check {p} --root {d} --no-write")
+                BASELINE[p] = findings(out) | {"<base>"}
         if "--from" in argv:
             root = argv[argv.index("--from") + 1]
             only.discard(root)
